@@ -88,7 +88,8 @@ def _strip(doc):
     """Drop error.data strings (texts built from exception messages, S4): comparing two symbolic strings enumerates lengths."""
     if isinstance(doc, list):
         return [_strip(d) for d in doc]
-    if isinstance(doc, dict) and isinstance(doc.get('error'), dict) and isinstance(doc['error'].get('data'), str):
+    if isinstance(doc, dict) and isinstance(doc.get('error'), dict) and isinstance(doc['error'].get('data'), str) \
+            and type(doc['error']['data']) is not str:          # concrete texts (e.g. the reason a batch was rejected) ARE compared
         e = {k: v for k, v in doc['error'].items() if k != 'data'}
         return {**{k: v for k, v in doc.items() if k != 'error'}, 'error': {**e, 'data': '<text>'}}
     return doc
